@@ -75,7 +75,7 @@ var plans = map[string]Plan{
 		Real: realBuild, Stub: append([]string{"that a real sh and its children die on kill (the simulated command dies at once)"}, stubBuild...), Assume: buildAssume, QuickS: 45, ThoroughS: 1200},
 	"C01": {Jobs: []Job{{World: "wbuild", Params: "max_targets=6", Share: 0.7}, {World: "wbuild", Params: "mode=faults,max_targets=5", Share: 0.3}, {World: "wbuild", Params: "max_targets=10,long=1", Share: 0.25, ThoroughOnly: true}}, Level: "exploration", Rule: buildRule + faultRule + " C01: after every build that exits 0 every declared output of every selected target equals the model's clean build; a target that must execute for lack of a result for its current state did execute.",
 		Real: realBuild, Stub: stubBuild, Assume: buildAssume, QuickS: 45, ThoroughS: 1200},
-	"C02": {Jobs: []Job{{World: "wbuild", Params: "max_targets=6", Share: 0.7}, {World: "wbuild", Params: "load=minimal,max_targets=6", Share: 0.3}, {World: "wbuild", Params: "max_targets=10,long=1", Share: 0.25, ThoroughOnly: true}}, Level: "exploration", Rule: buildRule + " C02: the set of commands executed by each build is compared with MUST-NOT (cached result for the current state, nothing forcing execution), incl. no-op rebuild, early cut-off (projected commands) and damaged output paths.",
+	"C02": {Jobs: []Job{{World: "wbuild", Params: "max_targets=6", Share: 0.55}, {World: "wbuild", Params: "load=minimal,max_targets=6", Share: 0.25}, {World: "wbuild", Params: "mode=faults,focus=damage,max_targets=5,force=nonhermetic+taint", Share: 0.2}, {World: "wbuild", Params: "max_targets=10,long=1", Share: 0.25, ThoroughOnly: true}}, Level: "exploration", Rule: buildRule + " C02: the set of commands executed by each build is compared with MUST-NOT (cached result for the current state, nothing forcing execution), incl. no-op rebuild, early cut-off (projected commands) and damaged output paths.",
 		Real: realBuild, Stub: stubBuild, Assume: buildAssume, QuickS: 45, ThoroughS: 1200},
 	"C06": {Jobs: []Job{{World: "wbuild", Params: "max_targets=6", Share: 0.6}, {World: "wbuild", Params: "max_targets=4,force=dirs+bin+wsmut", Share: 0.4}, {World: "wbuild", Params: "max_targets=10,long=1", Share: 0.25, ThoroughOnly: true}}, Level: "exploration", Rule: buildRule + " C06: a restored (not executed) target's recursive listing (type, exec bit, content, link target, nothing extra) equals the clean build, from destination states absent / parent absent / modified / truncated / stale extra entries / file where a directory should be.",
 		Real: realBuild, Stub: stubBuild, Assume: buildAssume, QuickS: 45, ThoroughS: 1200},
@@ -93,7 +93,7 @@ var plans = map[string]Plan{
 		Real: append(realDag, realBuild...), Stub: append(stubDag, stubBuild...), Assume: buildAssume, QuickS: 50, ThoroughS: 1200,
 	},
 	"C04": {
-		Jobs:  []Job{{World: "wdag", Params: "max_n=400", Share: 0.4}, {World: "wbuild", Params: "max_targets=6", Share: 0.2}, {World: "wbuild", Params: "mode=faults,max_targets=5", Share: 0.4}},
+		Jobs:  []Job{{World: "wdag", Params: "max_n=400", Share: 0.4}, {World: "wbuild", Params: "max_targets=6", Share: 0.15}, {World: "wbuild", Params: "mode=faults,max_targets=5", Share: 0.3}, {World: "wbuild", Params: "mode=faults,load=minimal,max_targets=5,force=extfail", Share: 0.15}},
 		Level: "exploration",
 		Rule: "W-build fault runs: cache read faults at every depth of an output restore (target result, tree blob, k-th file blob), see C07 for the fault catalogue. same workloads as C03 plus external cancellation; violation classes: hang (no runnable task and no pending timer for 2h simulated, or step budget), panic in grog code, concurrent map access (write-window monitor = the interleavings on which the Go runtime throws), unresolved / inconsistent completion map on return. " +
 			"non-trivial and distinct as for C03",
